@@ -2,9 +2,4 @@ module verifgen
 
 go 1.22.1
 
-require (
-	github.com/relab/gorums v0.0.0
-	google.golang.org/protobuf v1.33.0
-)
-
-replace github.com/relab/gorums => /repo
+require google.golang.org/protobuf v1.33.0
